@@ -26,6 +26,7 @@ type FuncReport struct {
 }
 
 func (w *World) newExec(fn *ssa.Function, spec *FuncSpec, beh *Behavior) *Exec {
+	restartNaming()
 	x := &Exec{W: w, fn: fn, spec: spec, beh: beh, ghost: map[string]Value{}, assumed: map[string]bool{},
 		callees: map[string]bool{}, ordinal: map[ssa.Instruction]int{}, globals: map[string]*Obj{}, gvals: map[*Obj]Value{}, errIDs: map[string]*Term{},
 		maxPath: 4000, strs: map[string]*Term{}, bufSrc: map[*Obj]*Obj{}, aliasOf: map[*Obj]*Obj{}, lazy: map[*Obj]Value{}, conns: map[*Term]*Obj{}, boxed: map[*Term]Value{}, sidx: map[*Term]bool{}, unfolded: map[*Term]bool{}, recfact: map[*Term]bool{}}
